@@ -551,7 +551,17 @@ def run_case(case, R):
             e = None
         if e is not None:
             R.label("filled-from-tree")
-            esnap = worlds.snapshot(e, cc)
+            from .c01 import _without
+            any_paths = [path for path, node in leaves if node["kind"] == "any"]
+
+            def esnapshot(cfg):
+                # (an AnyField hands out the very object it holds - also to to_tree(): if the history parked a list / dict
+                #  value in one, E was given that object by the harness itself, which is caller-made aliasing)
+                snap = worlds.snapshot(cfg, cc)
+                for ap in any_paths:
+                    snap = _without(snap, ap)
+                return snap
+            esnap = esnapshot(e)
             for path, node in leaves:
                 # (list / dict fields render a container of their own; an AnyField hands out the very object it was given,
                 #  so a caller who feeds that into another configuration has made the alias himself)
@@ -568,11 +578,11 @@ def run_case(case, R):
                 except Exception:
                     continue
                 inplace = True
-                now = worlds.snapshot(e, cc)
+                now = esnapshot(e)
                 if not R.check(now == esnap, "isolated", "filled-from-tree:" + node["kind"],
                                lambda: "E was filled from A.to_tree(); an in-place edit of A's %s changed E: %s" % (".".join(path), worlds.diff(esnap, now))):
                     esnap = now
-            asnap = worlds.snapshot(state["cfg"], cc)
+            asnap = esnapshot(state["cfg"])
             for path, node in leaves:
                 if node["kind"] not in ("list", "dict"):
                     continue
@@ -586,7 +596,7 @@ def run_case(case, R):
                         continue
                 except Exception:
                     continue
-                now = worlds.snapshot(state["cfg"], cc)
+                now = esnapshot(state["cfg"])
                 if not R.check(now == asnap, "isolated", "filled-from-tree:reverse:" + node["kind"],
                                lambda: "E was filled from A.to_tree(); an in-place edit of E's %s changed A: %s" % (".".join(path), worlds.diff(asnap, now))):
                     asnap = now
